@@ -105,8 +105,28 @@ class Engine:
         self.stats["feasibility_checks"] += 1
         return s.check(), s
 
+    def has_quant(self, e, _cache={}):
+        k = e.get_id()
+        r = _cache.get(k)
+        if r is None:
+            r = False
+            todo = [e]
+            seen = set()
+            while todo:
+                x = todo.pop()
+                if x.get_id() in seen:
+                    continue
+                seen.add(x.get_id())
+                if z3.is_quantifier(x):
+                    r = True
+                    break
+                todo.extend(x.children())
+            _cache[k] = r
+        return r
+
     def feasible(self, st, extra=None):
-        cs = list(st.pc)
+        # quantified facts are left out of feasibility checks (sound: only ever keeps more paths alive)
+        cs = [c for c in st.pc if not self.has_quant(c)]
         if extra is not None:
             cs.append(extra)
         r, _ = self.check(cs, 2000)
